@@ -19,6 +19,10 @@ from common import DEVNAMES, RecMem, device_classes, gen_case, widths
 ID = 'C14'
 LEAN_MODULES = ['Py65.Props.C14']
 NAMESPACES = ['Py65.Props.C14']
+# library helpers (CPython behaviour modelled in lean/Py65/Model/*Rt*.lean ...) that the generated code of these
+# modules calls, derived by scanning the Lean sources (harness/rtscan.py); validated against CPython on every run
+import rtcheck  # noqa: E402
+RT_HELPERS = rtcheck.helpers_for(LEAN_MODULES)
 LEVEL = 'proof'
 EXPECTED_THEOREMS = ['Py65.Props.C14.isa_6502', 'Py65.Props.C14.isa_65org16', 'Py65.Props.C14.isa_65c02',
                      'Py65.Props.C14.handlers_6502', 'Py65.Props.C14.handlers_65org16',
